@@ -92,11 +92,11 @@ def diff1 {α} (sub : α → α → α) (nan : α) (o : DimArray α) (pos : Nat)
                        get := fun j => sub (o.vals.get (j.set pos (j.getD pos 0 + 1))) (o.vals.get j) }
   let (vals, newax) ← match scheme, keepaxis with
     | .forward, true =>
-      if n == 0 then (.error .index : Except Err (NDArr α × Axis)) else     -- result.take([0]) on an empty axis
+      if n == 0 then (.error .other : Except Err (NDArr α × Axis)) else     -- padded length 1 vs axis length 0
       pure ({ shape := o.vals.shape, get := fun j => if j.getD pos 0 < n - 1 then d.get j else nan }, { ax with members := [] })
     | .forward, false => pure (d, axisSelect ax (List.range (n - 1)))
     | .backward, true =>
-      if n == 0 then .error .index else
+      if n == 0 then .error .other else
       pure ({ shape := o.vals.shape, get := fun j => if j.getD pos 0 == 0 then nan else d.get (j.set pos (j.getD pos 0 - 1)) }, { ax with members := [] })
     | .backward, false => pure (d, axisSelect ax ((List.range (n - 1)).map (· + 1)))
     | .centered, true => .error .value
